@@ -4,4 +4,8 @@ CLAIMED = {
   "text": "Bounded symbolic model checking of the cursor kernel: one inductive step of Cursor.Fetch from an arbitrary valid open state (view of 0..3 rows, pointer in [-1,n], any position keyword, number over the full int64 range) against a reference addressing model, plus closed/unfetched state operations and a NEXT walk; all paths decided by z3, counterexamples replayed on the real build.",
   "note": "Trusted: z3, go/ssa lowering, the interpreter (validated per run by native replay of sampled models). Cursor.Open's call into Select and the processor's WHILE IN loop are outside; tables larger than 3 rows are outside (row identity is index-generic).",
  },
+ "C07": {
+  "text": "Bounded symbolic model checking of the real Select pipeline (LoadView of a temporary table, Select, OrderBy incl. std sort.Sort interpreted from SSA, Offset, Limit, Fix) driven by parsed statements: n<=3 rows (thorough 4) with NULL or arbitrary-int64 keys, every direction / NULLS position, arbitrary int64 LIMIT/OFFSET, WITH TIES, integral PERCENT in [-5,205] plus a 120-row table for PERCENT up to 400; oracle is the definition of sorted sub-permutation / window / ties.",
+  "note": "Trusted: z3, go/ssa, the interpreter (validated per run by native replay). PERCENT uses exact-rational floats justified for integral percentages (DESIGN.md 2.5); float/string/datetime keys, multi-key ORDER BY and tables beyond the stated sizes are outside.",
+ },
 }
